@@ -21,3 +21,14 @@ package tables
 //@   requires [non-empty-loca] len(locaOffsets) >= 1
 //@   modifies unspecified
 //@   loop 1 invariant [shape] len(out) == len(locaOffsets)-1
+//
+// Hinting device tables: the parser keeps exactly one value per size of [StartSize, EndSize] (the invariant
+// DeviceHinting.GetDelta relies on when it indexes Values with ppem-StartSize).
+//@ func parseDeviceTable C09c
+//@   mode int
+//@   assert_at call ParseUint16s#1 : [one-value-per-size] outLength == int(out.EndSize)-int(out.StartSize)+1 && outLength >= 1 && count*nbPerUint16 >= outLength && count >= 0
+//@   modifies unspecified
+//@ func DeviceHinting.GetDelta C09c
+//@   mode int
+//@   requires [one-value-per-size] len(dev.Values) == int(dev.EndSize)-int(dev.StartSize)+1
+//@   modifies nothing
